@@ -70,7 +70,7 @@ ExtSigs0 == {[params |-> ps, results |-> rs, use |-> "extend"] :
 DocLayouts == {"line", "directive", "block", "tab", "prose", "detached", "trailing", "tabsep", "longline"}
 NotSetting == {"prose", "detached", "trailing", "tabsep"}
 HasCtxDecl(s) == \E i \in DOMAIN s.params : s.params[i] = "ctxdecl"
-ExtSigs == {[params |-> s.params, results |-> s.results, use |-> "extend", layout |-> "line", place |-> pl] : s \in ExtSigs0, pl \in {"local", "x1", "x2", "regex", "typename"}}
+ExtSigs == {[params |-> s.params, results |-> s.results, use |-> "extend", layout |-> "line", place |-> pl] : s \in ExtSigs0, pl \in {"local", "x1", "x2", "regex", "typename", "unexported"}}
            \* regex: selected by a pattern (goverter:extend F12x?) instead of its name; typename: the name denotes a declared func *type*
            \* (type F12 func(...) ...), not a function: it must be rejected whatever its signature
            \cup {[params |-> s.params, results |-> s.results, use |-> "extend", layout |-> l, place |-> "local"] : s \in {x \in ExtSigs0 : HasCtxDecl(x)}, l \in DocLayouts}
@@ -80,7 +80,9 @@ ExtSigs == {[params |-> s.params, results |-> s.results, use |-> "extend", layou
 \* what the parameter list means once the doc comment has been read: without the setting line the parameter is a plain one
 AsPlain(s) == [s EXCEPT !.params = [i \in DOMAIN s.params |-> IF s.params[i] = "ctxdecl" THEN "src2" ELSE s.params[i]]]
 Eff(s) == IF s.layout \in NotSetting THEN AsPlain(s) ELSE s
-ValidX(s) == s.place # "typename" /\ Valid(Eff(s))
+\* unexported: a function of the converter's own package whose name is not exported, with the output in another package: it cannot be
+\* called from there and must be rejected
+ValidX(s) == s.place \notin {"typename", "unexported"} /\ Valid(Eff(s))
 \* the reading under which the line is taken the wrong way round
 Misread(s) == IF s.layout \in NotSetting THEN s ELSE AsPlain(s)
 =============================================================================
